@@ -2564,5 +2564,11 @@ selftest(
            _loop_residual('(lin_con_viol_dict, nl_con_viol_dict)', 'con_viol.ravel()').replace(
                "                    flat_viols.append(", "                    if con_viol.size > 1:\n                        flat_viols.append("),
            'C22.lsq'),
+    # round-2 seed 2: one call in declaration order instead of linear-then-nonlinear (seeds 1 and 3 are the
+    # mutants scale-declared-scaler and zero-strict-mask above)
+    Mutant('rows-seed-single-call-declaration-order', _D, _LIN_CALL + "\n" + _NL_CALL + "\n" + _RETURN_CONCAT,
+           "            con_viol_dict = self.get_constraint_values(driver_scaling=driver_scaling,\n"
+           "                                                       viol=True)\n\n"
+           "            return np.concatenate([v.ravel() for v in con_viol_dict.values()])\n", 'C22.rows'),
     Twin('twin-select-positional', _D, "it = filter_by_meta(it, 'linear', exclude=True)", "it = filter_by_meta(it, 'linear', False, True)"),
 )
